@@ -8,7 +8,7 @@ import os
 import sys
 import time
 
-from runner import (VERIF, BUILD, LEAN, build_lean, audit_axioms, grep_forbidden, ALLOWED_AXIOMS)
+from runner import (VERIF, BUILD, LEAN, build_lean, audit_axioms, grep_forbidden, ALLOWED_AXIOMS, regenerate_tables)
 
 REPLAYS = os.path.join(VERIF, "replays")
 EVIDENCE = os.path.join(VERIF, "evidence")
@@ -42,6 +42,9 @@ class Check:
     def obligations(self, theorems):
         """build the Lean project and audit the theorems registered for this property.
         returns list of theorem names that are NOT discharged."""
+        terr = regenerate_tables()
+        if terr:
+            self.coverage["table_extraction_error"] = terr
         ok, log = build_lean()
         broken = []
         results = {}
@@ -58,7 +61,7 @@ class Check:
             results = {t: (False, ["audit failed: %s" % e]) for t in theorems}
         for t in theorems:
             okt, axs = results.get(t, (False, ["missing"]))
-            if not okt or hits:
+            if not okt or hits or (terr and self.pid in ("C16", "C17", "C18", "C19", "C20")):
                 broken.append(t)
         self.coverage["obligations"] = len(theorems)
         self.coverage["discharged"] = len(theorems) - len(broken)
